@@ -5,24 +5,31 @@ from checks.common import run_harness
 _cache = {}
 
 
-def ui_events(ctx, res, frames=True):
-    key = (ctx.pid, frames)
+PINNED = [["start_a", "0", "enter"], ["start_p"] + ["9"] * 20 + ["enter"],
+          ["start_a", "colon", "feed_f", "enter", "j", "sp", "h", "l"], ["start_a", "1", "dot", "k", "k", "g", "o"],
+          ["start_p", "k", "1", "enter", "2", "dot", "h", "h", "l"], ["start_a", "colon", "open_bad", "enter", "sp", "0", "dot"],
+          ["start_a", "p", "b", "c", "r", "a", "j", "a", "j", "o", "c"],
+          ["start_a", "colon", "x", "hi", "hi", "bs", "bs", "bs", "bs", "j"], ["start_p", "colon", "hi", "bs", "open_a", "enter", "j", "sp"],
+          ["start_p", "sp", "c", "h", "r", "h", "l", "c", "j", "g", "k", "sp", "h", "h", "h"],
+          ["start_p", "k", "k", "k", "k", "k", "g", "k", "sp", "k", "k"], ["start_a", "j", "j", "j", "j", "j", "j", "sp", "r", "h", "c", "b"],
+          ["start_a", "j", "j", "j", "sp", "k", "k", "g", "1", "dot", "k"]]
+
+
+def ui_events(ctx, res, frames=True, world=None):
+    """Key sessions on the real ui.State; world None = both content worlds (events carry e["world"])."""
+    if world is None:
+        return ui_events(ctx, res, frames, "w1") + ui_events(ctx, res, frames, "w2")
+    key = (ctx.pid, frames, world)
     if key in _cache:
         return _cache[key]
     q = ctx.quick
-    g = ctx.tlc("MC_UI", "Gen_UI.cfg", simulate="num=%d" % (120 if q else 1500), depth=14, workers=1)
+    n = (70 if q else 800)
+    g = ctx.tlc("MC_UI", "Gen_UI.cfg", simulate="num=%d" % n, depth=14, workers=1, consts={"World": '"%s"' % world})
     sessions = g.json_lines("GEN")
     if len(sessions) < 30:
         raise vlib.Inconclusive("key-sequence generator produced %d sessions" % len(sessions))
-    # pinned regression sequences (defects found earlier stay covered whatever the seed)
-    pinned = [["start_alice", "0", "enter"], ["start_n2", "9", "9", "9", "9", "9", "9", "9", "9", "9", "9", "9", "9", "9", "9", "9", "9", "9", "9", "9", "9", "enter"],
-              ["start_alice", "colon", "feed_f", "enter", "j", "sp", "h", "l"], ["start_alice", "1", "dot", "k", "k", "g", "o"],
-              ["start_n2", "k", "1", "enter", "2", "dot", "h", "h", "l"], ["start_alice", "colon", "open_bad", "enter", "sp", "0", "dot"],
-              ["start_alice", "p", "b", "c", "r", "a", "j", "a", "j", "o", "c"],
-              ["start_alice", "colon", "x", "hi", "hi", "bs", "bs", "bs", "bs", "j"], ["start_n2", "colon", "hi", "bs", "open_alice", "enter", "j", "sp"],
-              ["start_n2", "sp", "c", "h", "r", "h", "l", "c", "j", "g", "k", "sp", "h", "h", "h"]]
-    evs, rc, txt = run_harness(ctx, "ui", "TestVerifKeys", {"sessions": pinned + sessions, "wild": 60 if q else 600, "frames": frames},
-                               timeout=3000, allow_fail=True)
+    evs, rc, txt = run_harness(ctx, "ui", "TestVerifKeys", {"sessions": PINNED + sessions, "wild": 35 if q else 350, "frames": frames},
+                               timeout=3000, allow_fail=True, env={"VERIF_WORLD": world}, name="keys-" + world)
     if rc != 0:
         resets = [e for e in evs if e["ev"] == "reset"]
         if "panic:" in txt or "fatal error" in txt:
@@ -31,6 +38,8 @@ def ui_events(ctx, res, frames=True):
                         "panic": True, "wedged": False, "what": "process crashed: " + txt[-1500:], "frames": 0, "unheld": 0, "overlap": 0})
         else:
             raise vlib.Inconclusive("ui harness failed:\n" + txt[-2500:])
-    res.extra["key_sessions_from_tlc"] = len(sessions)
+    for e in evs:
+        e["world"] = world
+    res.extra["key_sessions_from_tlc_" + world] = len(sessions)
     _cache[key] = evs
     return evs
